@@ -156,36 +156,66 @@ pub trait Parties {
 }
 
 // ---- coroutine back-end ---------------------------------------------------------------------
+//
+// Stacks are expensive to map, so each worker thread keeps a small pool of long-lived
+// coroutines; a coroutine runs one party function per run and then parks until the next one.
+
+#[cfg(feature = "coro")]
+thread_local! {
+    static JOBS: RefCell<Vec<Option<PartyFn>>> = const { RefCell::new(Vec::new()) };
+    static DONE: RefCell<Vec<bool>> = const { RefCell::new(Vec::new()) };
+    static POOL: RefCell<Vec<Option<generator::Generator<'static, (), ()>>>> = const { RefCell::new(Vec::new()) };
+}
 
 #[cfg(feature = "coro")]
 pub struct CoroParties {
-    gens: Vec<generator::Generator<'static, (), ()>>,
+    n: usize,
 }
 
 #[cfg(feature = "coro")]
 impl CoroParties {
     pub fn new(fns: Vec<PartyFn>) -> Self {
-        let gens = fns
-            .into_iter()
-            .map(|f| {
-                generator::Gn::<()>::new_opt(0x8000, move || {
-                    f();
-                })
-            })
-            .collect();
-        CoroParties { gens }
+        let n = fns.len();
+        JOBS.with(|j| {
+            let mut j = j.borrow_mut();
+            j.clear();
+            j.extend(fns.into_iter().map(Some));
+        });
+        DONE.with(|d| {
+            let mut d = d.borrow_mut();
+            d.clear();
+            d.resize(n, false);
+        });
+        POOL.with(|p| {
+            let mut p = p.borrow_mut();
+            while p.len() < n {
+                let id = p.len();
+                p.push(Some(generator::Gn::<()>::new_opt(0x10000, move || loop {
+                    let job = JOBS.with(|j| j.borrow_mut().get_mut(id).and_then(|x| x.take()));
+                    if let Some(f) = job {
+                        let _ = panic::catch_unwind(AssertUnwindSafe(f));
+                        DONE.with(|d| d.borrow_mut()[id] = true);
+                    }
+                    #[allow(deprecated)]
+                    generator::yield_with(());
+                })));
+            }
+        });
+        CoroParties { n }
     }
 }
 
 #[cfg(feature = "coro")]
 impl Parties for CoroParties {
     fn resume(&mut self, id: usize) -> bool {
+        debug_assert!(id < self.n);
         let prev = MODE.with(|m| std::mem::replace(&mut *m.borrow_mut(), Mode::Coro));
-        let g = &mut self.gens[id];
+        // take the generator out of the pool while it runs (the party may start nested runs)
+        let mut g = POOL.with(|p| p.borrow_mut()[id].take()).expect("coroutine in use");
         let _ = g.resume();
-        let done = g.is_done();
+        POOL.with(|p| p.borrow_mut()[id] = Some(g));
         MODE.with(|m| *m.borrow_mut() = prev);
-        done
+        DONE.with(|d| d.borrow()[id])
     }
 }
 
@@ -195,8 +225,6 @@ pub struct ThreadParties {
     baton: Arc<Baton>,
     handles: Vec<Option<std::thread::JoinHandle<()>>>,
     done: Arc<Mutex<Vec<bool>>>,
-    /// panic info must travel from the party thread to the scheduler thread
-    pub last_panics: Arc<Mutex<Vec<Option<(String, String)>>>>,
 }
 
 impl ThreadParties {
@@ -204,7 +232,6 @@ impl ThreadParties {
         let baton = Arc::new(Baton { turn: Mutex::new(MAIN), cv: Condvar::new() });
         let n = fns.len();
         let done = Arc::new(Mutex::new(vec![false; n]));
-        let last_panics = Arc::new(Mutex::new(vec![None; n]));
         let mut handles = Vec::new();
         for (id, f) in fns.into_iter().enumerate() {
             let b = baton.clone();
@@ -228,7 +255,7 @@ impl ThreadParties {
                 .expect("spawn party thread");
             handles.push(Some(h));
         }
-        ThreadParties { baton, handles, done, last_panics }
+        ThreadParties { baton, handles, done }
     }
 }
 
